@@ -1,5 +1,5 @@
 import WebAuthnModel.Model.Prog
-import WebAuthnModel.Model.Jws
+import WebAuthnModel.Model.JwsVerify
 /-
   fido package: AAGUID text form (`AAGUID.String`, `ParseAAGUID` = google/uuid) and
   `UnmarshalMetadataBLOBPayload` (go-jose + x509 are oracles; the composition is the repository's).
@@ -117,12 +117,15 @@ def unmarshalBlobOpaque (raw : Bytes) (pool : Nat) : Prog (Option Bytes) := do
   | _ => pure none
 
 /-- `x509.ParseCertificate` of every x5c entry (`parseCertificateChain` in go-jose's shared.go): `none` = some entry is not a certificate -/
-def parseChain : List Bytes → Prog Bool
-  | [] => pure true
+def parseChain : List Bytes → Prog (Option (List CertView))
+  | [] => pure (some [])
   | der :: rest => do
     match ← query (.x509Parse der) with
-    | .cert _ => parseChain rest
-    | _ => pure false
+    | .cert c =>
+      match ← parseChain rest with
+      | some cs => pure (some (c :: cs))
+      | none => pure none
+    | _ => pure none
 
 def askBool (q : Ask) : Prog Bool := do
   match ← query q with
@@ -132,18 +135,16 @@ def askBool (q : Ask) : Prog Bool := do
 /-- compact serialisation: `jwt.ParseSigned` (Jws.parse + certificate parsing), `Headers[0].Certificates(VerifyOptions{Roots: pool})`,
     `Claims(leaf key, &MetadataBLOBPayload{})` = signature check, then the JSON decoding of the payload segment -/
 def unmarshalBlobCompact (raw : Bytes) (c : Jws.Compact) (pool : Nat) : Prog (Option Bytes) := do
-  if !(← parseChain c.x5c) then pure none                 -- ParseSigned fails
-  else
-    match c.x5c with
-    | [] => pure none                                       -- "no x5c header present in message"
-    | leaf :: rest =>
-      if !(← askBool (.x509VerifyPool leaf rest pool)) then pure none
-      else if !c.verifiable then pure none
-      else if !(← askBool (.jwsVerify raw leaf)) then pure none
-      else
-        match ← query (.blobPayload c.payload) with
-        | .bytes payload => pure (some payload)
-        | _ => pure none
+  match ← parseChain c.x5c, c.x5c with
+  | none, _ => pure none                                  -- ParseSigned fails
+  | some (leafCert :: _), leaf :: rest =>
+    if !(← askBool (.x509VerifyPool leaf rest pool)) then pure none
+    else if !(← Jws.signatureOK raw c leaf leafCert.key) then pure none
+    else
+      match ← query (.blobPayload c.payload) with
+      | .bytes payload => pure (some payload)
+      | _ => pure none
+  | _, _ => pure none                                     -- "no x5c header present in message"
 
 /-- `UnmarshalMetadataBLOBPayload`: returns the payload (as the JSON bytes the dependency hands back) -/
 def unmarshalBlob (raw : Bytes) (opts : List Pool) : Prog (Option Bytes) :=
